@@ -247,7 +247,15 @@ def run_case(case, ses):
                 raise HarnessError('C04 projection counterexample does not reproduce: %s' % label)
     bc = cp.bound_cons(vs, iface_cols)
     if bc:
-        ses.oblige(name + '/iface-bounds', S + Sdefs, [z3.Not(z3.And(bc))], kind='projection-qf', twin=False)
+        rb, mb = ses.oblige(name + '/iface-bounds', S + Sdefs, [z3.Not(z3.And(bc))], kind='projection-qf', twin=False)
+        if rb == 'sat':
+            pt = {n: fval(mb, vs[c]) for n, c in cm.iface.items()}
+            data = dict(name=name, point={k: str(v) for k, v in pt.items()})
+            if replay(data):
+                finding(ses, 'C04:%s:iface-bounds' % name, 'dro model %s: a decision that is safe for every distribution violates the '
+                        'bounds the compiled program puts on the user\'s columns' % name, data, 'rsv.props.c04:replay')
+            else:
+                raise HarnessError('C04 interface-bounds counterexample does not reproduce: %s' % name)
     if name == 'single_scenario_box':
         special_ro(ses, cm, vp)
 
